@@ -172,7 +172,10 @@ def kind_specific(version, slot, v, m):
                 ("hash:unknown-algorithm", {"FOOHASH": "abcd"}), ("hash:key-bad-chars", {"MD 5": "5a21fd2ba003eeb25d03a33499792e2e"}),
                 ("hash:value-not-string", {"MD5": 5}), ("hash:value-null", {"MD5": None}),
                 ("hash:lowercase-name", {"md5": "5a21fd2ba003eeb25d03a33499792e2e"}),
-                ("hash:key-trailing-newline", {"MD5\n": "5a21fd2ba003eeb25d03a33499792e2e"})]
+                ("hash:key-trailing-newline", {"MD5\n": "5a21fd2ba003eeb25d03a33499792e2e"}),
+                # characters which fold to ASCII letters under case-insensitive matching are not hexadecimal digits / SSDEEP characters
+                ("hash:kelvin-sign-in-ssdeep", {"SSDEEP": "3:abc\u212a:def"}), ("hash:long-s-in-ssdeep", {"SSDEEP": "3:ab\u017f:def"}),
+                ("hash:fullwidth-digit", {"MD5": "5a21fd2ba003eeb25d03a33499792e2\uff15"})]
     elif k == "extensions":
         if version == "2.1":
             for lab, val in EXT_JUNK:
